@@ -73,6 +73,7 @@ type Sim struct {
 	YieldAll   int             // if >0: yield at every site with probability 1/YieldAll (drawn)
 	LockSites  map[string]int  // contention observed per site
 
+	simGoid    string
 	Summary    map[string]any // scenario summary (config), for evidence samples
 	NonTrivial bool
 	simEnd     time.Duration
@@ -92,6 +93,7 @@ func New(prop string, tape *Tape, keepText bool) *Sim {
 		YieldSites: map[string]bool{},
 		LockSites:  map[string]int{},
 		Summary:    map[string]any{},
+		simGoid:    goid(),
 	}
 }
 
@@ -135,9 +137,9 @@ func (s *Sim) Tracef(format string, a ...any) {
 	s.mu.Unlock()
 }
 
-func (s *Sim) TraceHash() string { return hex.EncodeToString(s.hash[:8]) }
+func (s *Sim) TraceHash() string   { return hex.EncodeToString(s.hash[:8]) }
 func (s *Sim) TraceText() []string { return s.trace }
-func (s *Sim) NumEvents() int     { return s.nEvents }
+func (s *Sim) NumEvents() int      { return s.nEvents }
 
 // State records an abstract state hash for the "distinct states reached" measure.
 func (s *Sim) State(format string, a ...any) {
@@ -431,9 +433,21 @@ func (s *Sim) CancelActions(kinds ...string) []Action {
 
 // ---- lock hooks (installed into the instrumented repository code) ----
 
+// goid returns the current goroutine's id (parsed from its stack header; only
+// used on the slow path before a goroutine parks on a lock).
+func goid() string {
+	var buf [64]byte
+	n := runtime.Stack(buf[:], false)
+	f := strings.Fields(string(buf[:n]))
+	if len(f) >= 2 {
+		return f[1]
+	}
+	return ""
+}
+
 // HookLock is installed as verifhook.LockHook.
 func (s *Sim) HookLock(site string, try func() bool) {
-	if s.shouldYield(site) {
+	if s.shouldYield(site) && goid() != s.simGoid {
 		s.Count("lock_yield")
 		p := s.register("yield", site, nil, nil)
 		<-p.ch
@@ -444,6 +458,9 @@ func (s *Sim) HookLock(site string, try func() bool) {
 		s.mu.Unlock()
 		if try() {
 			return
+		}
+		if goid() == s.simGoid {
+			panic("sim: the simulator goroutine called repository code that needs lock " + site + ", which is held by a parked goroutine; call such APIs from a client goroutine")
 		}
 		s.mu.Lock()
 		s.LockSites[site]++
